@@ -378,6 +378,23 @@ func TestValuesRoundTrip(t *testing.T) {
 		if len(want) < 200 {
 			stats.Sample(map[string]string{"domain": "A_mixed", "tree": tr.String(), "enc": fmt.Sprintf("%x", want)})
 		}
+		// encodings are data that callers keep (hashes, stored nodes, relayed payloads): bytes handed out earlier
+		// must not change when another value is encoded, and a second decoder run must not disturb the first result
+		v2, tr2 := genInner(t)
+		enc2, err := rlp.EncodeToBytes(&v2)
+		if err != nil || !bytes.Equal(enc2, ref.RLPEncode(tr2)) {
+			t.Fatalf("second encode differs from reference: err=%v", err)
+		}
+		if !bytes.Equal(enc, want) {
+			t.Fatalf("bytes returned by EncodeToBytes changed after a later EncodeToBytes call")
+		}
+		var dec2 Inner
+		if err := rlp.DecodeBytes(enc2, &dec2); err != nil || eqInner(&v2, &dec2) != "" {
+			t.Fatalf("second decode: err=%v diff=%s", err, eqInner(&v2, &dec2))
+		}
+		if d := eqMixed(&v, &dec); d != "" {
+			t.Fatalf("a value decoded earlier changed after a later DecodeBytes call: %s", d)
+		}
 	})
 }
 
